@@ -218,6 +218,11 @@ def obligations(tier, seed):
         for steps in range(1, n + 1):
             for mode in ('forward', 'backward', 'centre'):
                 yield Ob('roll_av', {'n': n, 'steps': steps, 'mode': mode})
+            if steps == n and n in (1, 2, 4):
+                # windows longer than the series (every sample then averages replicated edge values too)
+                for extra in (1, 3):
+                    for mode in ('forward', 'backward', 'centre'):
+                        yield Ob('roll_av', {'n': n, 'steps': n + extra, 'mode': mode})
             if n in (4, 6, 7):
                 # the second documented spelling of the centred window, and the default (forward) without the keyword
                 yield Ob('roll_av', {'n': n, 'steps': steps, 'mode': 'center'})
